@@ -167,6 +167,7 @@ def run(cx):
     # logicle overrides: explicit T/M/W win (shared with C18)
     from . import c18
     c18.init_precedence(cx)
+    c18.derivations(cx)          # T, M, W derived from the channel as documented (empty / non-negative data give the default W)
     cx.decided += [
         'unknown scale refused; exactly linear/log/logicle dispatched',
         'one edge array per requested channel in order; unwrapped iff a single channel was asked; scalar nbins/scale broadcast',
@@ -174,6 +175,7 @@ def run(cx):
         'log: a non-positive lower limit is replaced by min(1, hi/1e5) before log10, on a new list; edges are 10**grid',
         'logicle: edges are transform_non_affine of the uniform display grid of the transform built for this channel with the overrides',
         'default bin count is the resolution; explicit logicle overrides T/M/W win over derived values',
+        'the logicle parameters of a channel are derived by the documented statements (range limit, 4.5 decades, width from the negative events only when there are some)',
         'no store through any object in hist_bins',
     ]
     cx.not_decided += ['strict monotonicity, finiteness and centring as numerical facts (follow from the grids for finite positive spans)']
